@@ -10,8 +10,10 @@ from pathlib import Path
 VERIF = Path(__file__).resolve().parent.parent
 REPO = Path(os.environ.get("VERIF_REPO", "/repo"))
 DEPS = VERIF / ".deps"
-EVIDENCE = VERIF / "evidence"
-REPLAYS = VERIF / "replays"
+# seeded-change detection runs (tools/seeded.py) point these elsewhere so that a run against a
+# patched tree can never overwrite the evidence of the unchanged tree
+EVIDENCE = Path(os.environ.get("VERIF_EVIDENCE", VERIF / "evidence"))
+REPLAYS = Path(os.environ.get("VERIF_REPLAYS", VERIF / "replays"))
 SEEDS = VERIF / "seeds"
 WHEELS = Path("/opt/veriftools/wheels")
 PY = "/venv/bin/python"
